@@ -607,6 +607,21 @@ pub fn probe(tag: &str, text: &str) {
         "lex" => {
             let _ = catch_unwind(|| verif::tokens(text));
         }
+        "history" => {
+            if let Some(ops) = serde_json::from_str::<serde_json::Value>(text).ok().and_then(|v| crate::props::c03::ops_from_json(&v)) {
+                let _ = crate::props::c03::run_history(&ops, true);
+            }
+        }
+        "session" => {
+            if let Ok(lines) = serde_json::from_str::<Vec<(String, u64)>>(text) {
+                install_gc_observer();
+                let mut s = session_begin();
+                for (l, b) in lines {
+                    let _ = s.line(&l, b);
+                }
+                s.end();
+            }
+        }
         "eval8" => {
             // the platform's default stack for a main thread
             let text = text.to_string();
@@ -629,6 +644,8 @@ pub fn probe(tag: &str, text: &str) {
 pub struct Session {
     compiler: Option<nederlang::compiler::Compiler>,
     vm: Option<nederlang::vm::VM>,
+    /// the lines so far with their budgets (journalled, so that a dying worker can be attributed to its session)
+    history: Vec<(String, u64)>,
 }
 
 pub fn session_begin() -> Session {
@@ -638,13 +655,16 @@ pub fn session_begin() -> Session {
     verif::set_boundaries(None);
     take_last_panic();
     GCSTATS.with(|g| *g.borrow_mut() = GcStats::default());
-    Session { compiler: Some(nederlang::compiler::Compiler::new()), vm: Some(nederlang::vm::VM::new()) }
+    Session { compiler: Some(nederlang::compiler::Compiler::new()), vm: Some(nederlang::vm::VM::new()), history: Vec::new() }
 }
 
 impl Session {
     /// parse, compile and run one line on the retained compiler and VM
     pub fn line(&mut self, text: &str, budget: u64) -> Obs {
-        note_current("session-line", text);
+        self.history.push((text.to_string(), budget));
+        if JOURNAL_ON.load(std::sync::atomic::Ordering::Relaxed) {
+            note_current("session", &serde_json::json!(self.history).to_string());
+        }
         verif::set_budget(budget);
         verif::capture_start();
         verif::take_events();
